@@ -199,6 +199,11 @@ def rsa_cases(rng, tier, pad, bits_list):
                     # k = tLen + 10: no valid signature exists; keep this class apart from the representative-range mutations
                     muts = [x for x in muts if x not in ("s+N", "zp:1", "zp:3", "lz")]
                 out.append("rsa %d %s %d %s %s" % (bits, kseed, flag, hx(m), " ".join(muts)))
+        if pad == "pss" and not quick and bits == 522:
+            # the top bit of the encoded message is a data bit of maskedDB here (1 valid bit in the leading digit):
+            # clearing it leaves a maskedDB with fewer digits than the mask; about half of the messages have it set
+            for i in range(12):
+                out.append("rsa %d %s 0 %02x%02x honest emx:0:01 emx:1:01" % (bits, kseed, i, (7 * i + 1) & 255))
     return out
 
 
